@@ -1,6 +1,8 @@
 """C08 - the kdq-tree partitions space consistently and conserves counts."""
 import itertools
 
+import numpy as np
+
 from .. import drv_kdq as D
 
 
@@ -80,6 +82,9 @@ def run(ctx):
     t4 = [D.refill_trace(rng) for _ in range(150 if q else 1500)]
     for n_ in ([70000, 140000] if q else [70000, 140000, 300000, 66000, 131073]):
         t4.append(D.big_refill(rng.randrange(10 ** 6), n_, rng.choice([1, 2]), rng.choice([500, 2000])))
+    if np.finfo(np.longdouble).nmant > 52:
+        t4 += [D.longdouble_refill(rng) for _ in range(60 if q else 600)]
+    t4 += [D.adjacent_refill(rng) for _ in range(40 if q else 400)]
     ctx.validate("KdqTree", t4, "real-valued build data filed again under another id", replay=lambda i: {"mode": "refill", "cfg": t4[i]["cfg"], "data": t4[i]["data"]},
                  nontrivial=lambda t: len(t["ev"][0]["cb"]) > 1)
     ctx.assumptions += ["data are integer-valued (all quantities of the construction are then exact in the specification)",
